@@ -195,7 +195,7 @@ Definition step_action (w : world) (a : action) : world :=
 
 Definition init_world (c : case) : world :=
   {| w_sess := session_new (c_cfg c); w_conn := false; w_live := false; w_event := 0; w_now := 0; w_inq := [];
-     w_last_arrival := 0; w_txbuf := []; w_script := c_script c; w_broker := 0; w_log := []; w_handles := []; w_waits := 0; w_envok := true; w_wire := []; w_poison := false |}.
+     w_last_arrival := 0; w_txbuf := []; w_script := c_script c; w_broker := 0; w_log := []; w_handles := []; w_waits := 0; w_envok := true; w_wire := []; w_poison := false; w_drained := true |}.
 
 Definition run_case (c : case) : world := fold_left step_action (c_prog c) (init_world c).
 
